@@ -39,6 +39,27 @@ theorem C26_configure_valid {ne nx er w slip v4len v6len size : Nat} {p : RrlPar
   obtain ⟨hv, a, b, c, d, e, f, g4, g6, m4, m6⟩ := configure_ok h
   exact ⟨hv, ⟨g4, g6, m4, m6⟩, e, a, b, c, d, f⟩
 
+/-- **Documented defaults of the remaining parameters** (rrl.rs, "The defaults are: slip 2 …
+    size 65,537 entries"; the prefix lengths are `C27_default_masks`): an `RrlParams` fresh from
+    `RrlParams::new` is a valid configuration with slip 2 and a table of 65 537 entries.  The two
+    literals are read from the source by the extractor. -/
+theorem C26_default_slip_size {ne nx er w : Nat} {p : RrlParams}
+    (h : RrlParams.new ne nx er w = .ok p) : p.slip = 2 ∧ p.size = 65537 := by
+  unfold RrlParams.new at h
+  by_cases h1 : ne = 0 <;> simp only [h1, if_true, if_false] at h
+  · cases h
+  by_cases h2 : nx = 0 <;> simp only [h2, if_true, if_false] at h
+  · cases h
+  by_cases h3 : er = 0 <;> simp only [h3, if_true, if_false] at h
+  · cases h
+  by_cases h4 : w = 0 <;> simp only [h4, if_true, if_false] at h
+  · cases h
+  by_cases h5 : (u32MulOverflows ne w || u32MulOverflows nx w || u32MulOverflows er w) = true
+  · rw [if_pos h5] at h; cases h
+  · rw [if_neg h5] at h
+    cases h
+    exact ⟨show Gen.RRL_DEFAULT_SLIP = 2 by decide, show Gen.RRL_DEFAULT_SIZE = 65537 by decide⟩
+
 /-! ### the u32/u64 side: the refill never overflows and never truncates (defect D10) -/
 
 /-- For **every** rate and **every** idle time, the refill computed by the code —
